@@ -313,6 +313,8 @@ func coqRes(r *Res) string {
 		return "RErrSendClosed"
 	case "closeclosed":
 		return "RErrCloseClosed"
+	case "limit":
+		return "RErrLimit"
 	}
 	return "RErrOther"
 }
@@ -510,7 +512,21 @@ func addCase(w *lib.Writer, j Job, r Result) {
 			"closure_reports": st.closedReports, "refused": st.refused, "select": st.selects, "default": st.defaults, "log": r.Log}
 		if r.Status == "ok" {
 			c.Coq = "CHist " + coqCaps(j.Hist.Caps) + " " + coqLog(r.Log)
-			if j.Hist.Class == "solo" {
+			if j.Hist.Class == "edge" {
+				// the sweep must have crossed the limit: operations that worked, operations that
+				// failed, and at least one that failed after its leaf had been entered (the
+				// library call itself hit the limit)
+				e := r.Edge
+				if e == nil {
+					e = &EdgeObs{}
+				}
+				c.Observed.(map[string]any)["edge"] = e
+				c.Nontrivial = e.Ops-e.Failed >= 1 && e.FailedInside >= 1 && st.closedReports >= 1
+				totals["edge_ops"] += e.Ops
+				totals["edge_ops_failed_at_the_limit"] += e.Failed
+				totals["edge_ops_failed_inside_the_call"] += e.FailedInside
+				totals["edge_history_steps"] += e.HistSteps
+			} else if j.Hist.Class == "solo" {
 				c.Nontrivial = st.refused+st.closedReports > 0
 			} else {
 				c.Nontrivial = st.threads >= 2 && st.delivered >= 1 && st.overlap
